@@ -138,6 +138,11 @@ func (m *expirationMap[V]) cleanup(store store[V], policy *defaultPolicy[V], onE
 			if expr.After(now) {
 				continue
 			}
+			// A zero expiration means the key is gone or was re-written without a
+			// TTL after the bucket was grabbed: it must not be expired.
+			if expr.IsZero() {
+				continue
+			}
 
 			cost := policy.Cost(key)
 			policy.Del(key)
